@@ -199,6 +199,29 @@ def h_log(K, prefix):
 
 
 FLAT_PATTERNS = [[(0, 100), (0, 50), (50, 150)], [(0, 100), (100, 200), (200, 300)], [(0, 50), (30, 80), (60, 120)], [(0, 100), (200, 300), (50, 80)], [(0, 40), (100, 140)], [(0, 100), (0, 100), (0, 100)]]
+def h_version():
+    """version string / date for banners with and without a trailing tag, and across read() calls (concrete texts)"""
+    def fn():
+        import atomman.lammps as lmp, datetime
+        def mk(banner, off=0):
+            return '\n'.join([banner, TRIG_MEM[0] + ' 3.1 Mbytes', 'Step Temp', f'{off} 1.5', f'{off + 10} 2.5', 'Loop time of 0.1 on 1 procs for 10 steps with 4 atoms', '']) + '\n'
+        ob = []
+        for ver, date in (('29 Oct 2020', (2020, 10, 29)), ('2 Aug 2023 - Update 1', (2023, 8, 2)), ('2 Aug 2023 - Update 3', (2023, 8, 2)), ('7 Feb 2024 - Development - patch_7Feb2024-61-gb12fd5a', (2024, 2, 7))):
+            log = lmp.Log(mk(f'LAMMPS ({ver})'))
+            ob.append((f'banner "LAMMPS ({ver})": version string is the text between the parentheses, date {date}', log.lammps_version == ver and log.lammps_date == datetime.date(*date)))
+        # a re-used Log: append=False forgets the previous log (runs AND version), append=True keeps the runs
+        log = lmp.Log(mk('LAMMPS (29 Oct 2020)'))
+        log.read(mk('LAMMPS (2 Aug 2023 - Update 1)', 100), append=False)
+        ob.append(('read(append=False) of a log written by another LAMMPS version reports that version and date', log.lammps_version == '2 Aug 2023 - Update 1' and log.lammps_date == datetime.date(2023, 8, 2) and len(log.simulations) == 1
+                   and list(log.simulations[0].thermo.Step) == [100, 110]))
+        log.read(mk('LAMMPS (2 Aug 2023 - Update 1)', 200), append=True)
+        ob.append(('read(append=True) appends the runs of the new log', len(log.simulations) == 2 and list(log.simulations[1].thermo.Step) == [200, 210]))
+        log.read(mk('', 300), append=False)
+        ob.append(('read(append=False) of a log without a banner: no version is reported', log.lammps_version is None and log.lammps_date is None and len(log.simulations) == 1))
+        return ob
+    return fn
+
+
 def h_flatten():
     """flatten on synthesised logs with two or three runs and overlapping / disjoint / restarted step ranges (concrete replays)"""
     def fn():
@@ -251,5 +274,6 @@ def cases(tier, seed=0):
     for p in prefixes(3):
         cs.append(Case('log_K%d_' % K + '_'.join(KN[k] for k in p), h_log(K, p), bind=BIND, budget_s=150 if tier == 'quick' else 900, timeout_ms=10000, max_paths=100000,
                        descr=f'all well-formed logs of {K} lines starting with {[KN[k] for k in p]}'))
+    cs.append(Case('version_banner', h_version(), concrete_only=True, budget_s=60, descr='CONCRETE: version banner with / without trailing tag; version across read(append=False/True)'))
     cs.append(Case('flatten_patterns', h_flatten(), concrete_only=True, budget_s=120, descr='flatten(first|last|all) on synthesised multi-run logs with overlapping, disjoint and restarted step ranges (concrete replays)'))
     return cs
